@@ -148,12 +148,17 @@ func VerifHarness_C19_RelativeIdentity() {
 	verifrt.Reach("end")
 }
 
-// C19: reference identity comparison is reflexive, symmetric and transitive (URI and fragment references).
+// C19: reference identity comparison is reflexive, symmetric and transitive (URI and fragment references, with and
+// without a version).
 func VerifHarness_C19_IsEquivalence() {
-	mk := func(label string) *dtpb.Reference {
-		typ := verifTypes[verifrt.Choose(label+".type", 2)]
+	mk := func(label string, forms []int, types int) *dtpb.Reference {
+		typ := verifTypes[verifrt.Choose(label+".type", types)]
 		id := []string{"1", "2"}[verifrt.Choose(label+".id", 2)]
-		switch verifrt.Choose(label+".form", 4) {
+		switch forms[verifrt.Choose(label+".form", len(forms))] {
+		case 4: // pinned to a version: another reference than the unversioned one, from whichever side it is compared
+			return &dtpb.Reference{Reference: &dtpb.Reference_Uri{Uri: &dtpb.String{Value: typ + "/" + id + "/_history/" + []string{"4", "5"}[verifrt.Choose(label+".version", 2)]}}}
+		case 5:
+			return &dtpb.Reference{Reference: &dtpb.Reference_Uri{Uri: &dtpb.String{Value: "http://h/" + typ + "/" + id + "/_history/4"}}}
 		case 0:
 			return &dtpb.Reference{Reference: &dtpb.Reference_Uri{Uri: &dtpb.String{Value: typ + "/" + id}}}
 		case 1:
@@ -164,7 +169,9 @@ func VerifHarness_C19_IsEquivalence() {
 			return &dtpb.Reference{Type: &dtpb.Uri{Value: typ}, Reference: &dtpb.Reference_Fragment{Fragment: &dtpb.String{Value: id}}}
 		}
 	}
-	a, b, c := mk("a"), mk("b"), mk("c")
+	// (the third reference, needed for transitivity only, takes two of the six forms and one type: 6^3 forms x 4^3 names is beyond
+	// the quick budget)
+	a, b, c := mk("a", []int{0, 1, 2, 3, 4, 5}, 2), mk("b", []int{0, 1, 2, 3, 4, 5}, 2), mk("c", []int{0, 4}, 1)
 	verifrt.Assert(Is(a, a), "is-reflexive")
 	verifrt.Assert(Is(a, b) == Is(b, a), "is-symmetric")
 	if Is(a, b) && Is(b, c) {
